@@ -83,3 +83,46 @@ fn string_replace_char(s: &String, a: char, to: &str) -> (r: String)
 fn string_replace_chars2(s: &String, a: char, b: char, to: &str) -> (r: String)
     ensures r@ == replaced2(s@, a, b, to@),
 { s.replace([a, b], to) }
+
+// ---- std str helpers used by src/wrapping.rs::first_line_leading_spaces ----
+
+/// `s.split('\n')` collected: the pieces between line feeds, in order (at least one piece)
+pub open spec fn split_lines(s: Seq<char>) -> Seq<Seq<char>>
+    decreases s.len()
+{
+    if s.len() == 0 { seq![Seq::<char>::empty()] }
+    else {
+        let p = split_lines(s.drop_last());
+        if s.last() == '\n' { p.push(Seq::<char>::empty()) } else { p.update(p.len() - 1, p.last().push(s.last())) }
+    }
+}
+
+#[verifier::external_body]
+fn str_split_lf<'a>(s: &'a str) -> (r: Vec<&'a str>)
+    ensures r@.len() == split_lines(s@).len(), forall|i: int| 0 <= i < r@.len() ==> (#[trigger] r@[i])@ == split_lines(s@)[i],
+{ s.split('\n').collect() }
+
+pub open spec fn leading_spaces(s: Seq<char>) -> nat
+    decreases s.len()
+{
+    if s.len() == 0 || s[0] != ' ' { 0 } else { 1 + leading_spaces(s.skip(1)) }
+}
+
+// `line.trim_start_matches(' ')`
+#[verifier::external_body]
+fn str_trim_start_spaces<'a>(s: &'a str) -> (r: &'a str)
+    ensures r@ == s@.skip(leading_spaces(s@) as int), leading_spaces(s@) <= s@.len(),
+{ s.trim_start_matches(' ') }
+
+// `str::len` (bytes) for text that is compared only through differences of lengths of a string and its suffix
+#[verifier::external_body]
+fn str_len_diff(a: &str, b: &str) -> (r: usize)
+    requires b@.len() <= a@.len(), b@ == a@.skip(a@.len() - b@.len()),
+             forall|i: int| 0 <= i < a@.len() - b@.len() ==> a@[i] == ' ',
+    ensures r == a@.len() - b@.len(),
+{ a.len() - b.len() }
+
+#[verifier::external_body]
+fn str_is_empty(s: &str) -> (r: bool)
+    ensures r == (s@.len() == 0),
+{ s.is_empty() }
